@@ -2,6 +2,7 @@ SPECIFICATION Spec
 CONSTANTS NT = 2
           N1 = 3
           N2 = 3
+          PAIR = FALSE
           N3 = 0
 INVARIANT Invisible
 INVARIANT SourceOrder
